@@ -26,11 +26,11 @@ package main
 
 import (
 	"fmt"
-	"regexp"
 	"go/ast"
 	"go/constant"
 	"go/token"
 	"go/types"
+	"regexp"
 	"sort"
 	"strings"
 )
@@ -120,8 +120,8 @@ var structFields = map[string][]struct{ name, kind string }{
 	"pub":   {{"x", "field"}, {"y", "field"}},
 	"priv":  {{"Key", "scalar"}},
 	"naf":   {{"pos", "bytes"}, {"neg", "bytes"}, {"start", "int"}, {"end", "int"}},
-	"epub": {{"Curve", "curve"}, {"X", "big"}, {"Y", "big"}},
-	"sopt": {{"Format", "int"}, {"Hash", "int"}},
+	"epub":  {{"Curve", "curve"}, {"X", "big"}, {"Y", "big"}},
+	"sopt":  {{"Format", "int"}, {"Hash", "int"}},
 	"ext": {{"Version", "bytes"}, {"Depth", "int"}, {"Fingerprint", "bytes"}, {"ChildNumber", "int"}, {"KeyData", "bytes"}, {"ChainCode", "bytes"},
 		{"curve", "curve"}},
 }
@@ -714,7 +714,7 @@ type nilNode struct{}
 
 func (nilNode) Pos() token.Pos { return token.NoPos }
 func (nilNode) End() token.Pos { return token.NoPos }
-func d8nil() ast.Node { return nilNode{} }
+func d8nil() ast.Node          { return nilNode{} }
 
 // writeBytesAt: store v (a byte string) at the start of the (sub-slice) location, n = number of bytes written
 func (d *d8) writeBytesAt(l *dloc, v, n string, pre *[]*dnode) {
